@@ -246,6 +246,8 @@ class FunctionVerifier:
         self.call_sites = {}
         self.real_assigned = set()
         self.stmt_keys = {}
+        self.view_copies = set()  # locations that model a NumPy slice view as a copy: must never be written
+        self.view_src = {}  # ... and must not be read after their base array has been written
         self.used_anchors = set()
         self.computing = False
         self.skolems = []
@@ -336,6 +338,7 @@ class FunctionVerifier:
         return nested_select(o.comps[comp], a.prefix)
 
     def arr_value(self, st, a):
+        self.check_view_fresh(st, a)
         o = st.heap[a.loc]
         return SArrVal(o.dtype, self.arr_shape(st, a), {c: nested_select(t, a.prefix) for c, t in o.comps.items()})
 
@@ -350,15 +353,23 @@ class FunctionVerifier:
             st.assume(z3.And(v >= rng[0], v <= rng[1]))
         return SInt(v)
 
+    def check_view_fresh(self, st, a):
+        src = self.view_src.get(a.loc)
+        if src is not None and st.heap.get(src[0]) is not src[1]:
+            cur = st.heap.get(src[0])
+            if cur is None or any(not cur.comps[c].eq(src[1].comps[c]) for c in cur.comps):
+                raise VerifError("a slice view is read after its base array was written (views are modelled as copies)")
+
     def load(self, st, a, idxs, node=None, prog=True):
+        self.check_view_fresh(st, a)
         o = st.heap[a.loc]
         full = a.prefix + tuple(idxs)
         if o.dtype == "fdict":
-            if len(idxs) != 1:
+            if len(idxs) != o.ndim:
                 raise VerifError("dict subscript")
             if prog:
-                self.oblige("key-present", self.stmt_anchor(node) if node is not None else "load", z3.Select(o.comps["has"], idxs[0]), st, node)
-            terms = {c: z3.simplify(z3.Select(t, idxs[0])) for c, t in o.comps.items()}
+                self.oblige("key-present", self.stmt_anchor(node) if node is not None else "load", nested_select(o.comps["has"], idxs), st, node)
+            terms = {c: z3.simplify(nested_select(t, idxs)) for c, t in o.comps.items()}
             return SFloat(terms["v"], terms["ninf"], terms["nan"])
         if prog:
             for k, ix in enumerate(idxs):
@@ -391,14 +402,16 @@ class FunctionVerifier:
         return {"v": val.e}
 
     def store(self, st, a, idxs, val, node=None, prog=True):
+        if a.loc in self.view_copies and prog:
+            raise VerifError("store through a slice view is not modelled (views are read-only copies)")
         o = st.heap[a.loc]
         full = a.prefix + tuple(idxs)
         if o.dtype == "fdict":
-            if len(idxs) != 1:
+            if len(idxs) != o.ndim:
                 raise VerifError("dict subscript")
             f = self.to_float(val)
             new = {"v": f.v, "ninf": f.ninf, "nan": f.nan, "has": TRUE}
-            st.heap[a.loc] = o.with_comps({c: z3.Store(t, idxs[0], new[c]) for c, t in o.comps.items()})
+            st.heap[a.loc] = o.with_comps({c: nested_store(t, list(idxs), new[c]) for c, t in o.comps.items()})
             return
         if prog:
             for k, ix in enumerate(idxs):
@@ -413,6 +426,8 @@ class FunctionVerifier:
         self.store_slice(st, SArr(a.loc, full), None, None, val, node, prog)
 
     def store_slice(self, st, a, lo, hi, val, node=None, prog=True):
+        if a.loc in self.view_copies and prog:
+            raise VerifError("store through a slice view is not modelled (views are read-only copies)")
         """a[lo:hi] = val  (first remaining axis; lo/hi None = whole axis).
         val is a scalar (broadcast) or an array of matching shape."""
         o = st.heap[a.loc]
@@ -622,11 +637,10 @@ class FunctionVerifier:
                 a = self.as_int(a)
                 r = z3.And(a.e >= b.lo, a.e < b.hi)
                 return SBool(r if isinstance(op, ast.In) else z3.Not(r))
-            if isinstance(b, SArr) and st.heap[b.loc].dtype == "fdict":
-                r = z3.Select(st.heap[b.loc].comps["has"], self.as_int(a).e)
-                return SBool(r if isinstance(op, ast.In) else z3.Not(r))
-            if isinstance(b, SArrVal) and b.dtype == "fdict":
-                r = z3.Select(b.comps["has"], self.as_int(a).e)
+            if (isinstance(b, SArr) and st.heap[b.loc].dtype == "fdict") or (isinstance(b, SArrVal) and b.dtype == "fdict"):
+                has = st.heap[b.loc].comps["has"] if isinstance(b, SArr) else b.comps["has"]
+                keys = [self.as_int(x).e for x in a.items] if isinstance(a, STuple) else [self.as_int(a).e]
+                r = nested_select(has, keys)
                 return SBool(r if isinstance(op, ast.In) else z3.Not(r))
             raise VerifError("`in` only supported on ranges and dicts")
         if isinstance(a, SNone) or isinstance(b, SNone):
@@ -779,6 +793,11 @@ class FunctionVerifier:
 
     def ev_Compare(self, node, st, prog):
         left = self.ev(node.left, st, prog)
+        if len(node.ops) == 1 and not isinstance(node.ops[0], (ast.In, ast.NotIn, ast.Is, ast.IsNot)):
+            right0 = self.ev(node.comparators[0], st, prog)
+            scalar = (SInt, SFloat, SBool)
+            if (isinstance(left, SArr) and isinstance(right0, scalar) and st.heap[left.loc].dtype != "fdict") or (isinstance(right0, SArr) and isinstance(left, scalar) and st.heap[right0.loc].dtype != "fdict"):
+                return self.array_compare(st, node.ops[0], left, right0, node, prog)
         parts = []
         for op, rn in zip(node.ops, node.comparators):
             right = self.ev(rn, st, prog)
@@ -794,6 +813,30 @@ class FunctionVerifier:
         X.USED.add("numba typed dict int64 -> float64: key in d, d[key], d[key] = value")
         comps = {"v": z3.K(I, z3.RealVal(0)), "ninf": z3.K(I, FALSE), "nan": z3.K(I, FALSE), "has": z3.K(I, FALSE)}
         return self.new_loc(st, "fdict", [z3.IntVal(0)], comps, name="dict")
+
+    def array_compare(self, st, op, a, b, node, prog):
+        """elementwise comparison of a 1-D array with a scalar (or a 1-D array) -> boolean array"""
+        from . import externals as X
+
+        X.USED.add("elementwise comparison of a 1-D array with a scalar: boolean array")
+        arr = a if isinstance(a, SArr) else b
+        shp = self.arr_shape(st, arr)
+        if len(shp) != 1:
+            raise VerifError("elementwise comparison on non-1-D array")
+        k = self.fresh_int("k")
+        sub = st.fork()
+        sub.assumes = st.assumes
+        sub.guards = st.guards + [k >= 0, k < shp[0]]
+
+        def elem(x):
+            if isinstance(x, SArr):
+                if prog and x is not arr:
+                    self.oblige("shape-match", self.stmt_anchor(node), self.arr_shape(st, x)[0] == shp[0], st, node)
+                return self.load(sub, x, [k], node, prog=False)
+            return x
+
+        c = self.to_bool(self.compare(sub, op, elem(a), elem(b), node, prog))
+        return self.new_loc(st, "b1", [shp[0]], {"v": z3.Lambda([k], c)}, name="cmp")
 
     def ev_IfExp(self, node, st, prog):
         c = self.to_bool(self.ev(node.test, st, prog))
@@ -867,7 +910,7 @@ class FunctionVerifier:
         if isinstance(base, SArrVal):
             idxs = [self.as_int(self.ev(e, st, prog)).e for e in elts]
             if base.dtype == "fdict":
-                terms = {c: z3.Select(t, idxs[0]) for c, t in base.comps.items()}
+                terms = {c: nested_select(t, idxs) for c, t in base.comps.items()}
                 return SFloat(terms["v"], terms["ninf"], terms["nan"])
             if len(idxs) < len(base.shape):
                 return SArrVal(base.dtype, base.shape[len(idxs):], {c: nested_select(t, idxs) for c, t in base.comps.items()})
@@ -878,6 +921,8 @@ class FunctionVerifier:
                 return self.slice_view(st, base, elts, node, prog)
             if len(elts) == 1:
                 iv = self.ev(elts[0], st, prog)
+                if isinstance(iv, STuple) and st.heap[base.loc].dtype == "fdict":
+                    return self.load(st, base, [self.as_int(x).e for x in iv.items], node, prog)
                 if isinstance(iv, SArr):
                     return self.fancy_index(st, base, iv, node, prog)
                 elts = [ast.copy_location(ast.Name(id="__idx0__", ctx=ast.Load()), elts[0])]
@@ -927,14 +972,20 @@ class FunctionVerifier:
                 self.oblige("index-in-bounds", self.stmt_anchor(node), z3.And(lo >= 0, lo <= hi, hi <= shp[0]), st, node)
             k = self.fresh_int("k")
             comps = {c: z3.Lambda([k], z3.Select(nested_select(t, base.prefix), k + lo)) for c, t in o.comps.items()}
-            return self.new_loc(st, o.dtype, [hi - lo] + list(shp[1:]), comps, name="slice")
+            a_ = self.new_loc(st, o.dtype, [hi - lo] + list(shp[1:]), comps, name="slice")
+            self.view_copies.add(a_.loc)
+            self.view_src[a_.loc] = (base.loc, o)
+            return a_
         if len(elts) == 2 and isinstance(elts[0], ast.Slice) and elts[0].lower is None and elts[0].upper is None and not isinstance(elts[1], ast.Slice):
             j = self.as_int(self.ev(elts[1], st, prog)).e
             if prog:
                 self.oblige("index-in-bounds", self.stmt_anchor(node), z3.And(j >= 0, j < shp[1]), st, node)
             k = self.fresh_int("k")
             comps = {c: z3.Lambda([k], z3.Select(z3.Select(nested_select(t, base.prefix), k), j)) for c, t in o.comps.items()}
-            return self.new_loc(st, o.dtype, [shp[0]] + list(shp[2:]), comps, name="col")
+            a_ = self.new_loc(st, o.dtype, [shp[0]] + list(shp[2:]), comps, name="col")
+            self.view_copies.add(a_.loc)
+            self.view_src[a_.loc] = (base.loc, o)
+            return a_
         # general case: a mix of integer indices and full slices `:` -> array value over the sliced axes
         if len(elts) <= len(shp) and all((isinstance(e, ast.Slice) and e.lower is None and e.upper is None and e.step is None) or not isinstance(e, ast.Slice) for e in elts):
             idx = []
@@ -957,7 +1008,10 @@ class FunctionVerifier:
                 for k in reversed(lam_vars):
                     body = z3.Lambda([k], body)
                 comps[c] = body
-            return self.new_loc(st, o.dtype, new_shape + list(shp[len(elts):]), comps, name="view")
+            a_ = self.new_loc(st, o.dtype, new_shape + list(shp[len(elts):]), comps, name="view")
+            self.view_copies.add(a_.loc)
+            self.view_src[a_.loc] = (base.loc, o)
+            return a_
         raise VerifError("unsupported slice expression %s" % ast.unparse(node))
 
     def ev_Lambda(self, node, st, prog):
@@ -1089,6 +1143,11 @@ class FunctionVerifier:
                 return
             idxs = []
             is_dict = st.heap[base.loc].dtype == "fdict"
+            if is_dict and len(elts) == 1:
+                kv = self.ev(elts[0], st, prog)
+                if isinstance(kv, STuple):
+                    self.store(st, base, [self.as_int(x).e for x in kv.items], val, node, prog)
+                    return
             for k, e in enumerate(elts):
                 ix = self.as_int(self.ev(e, st, prog)).e
                 sx = z3.simplify(ix)
